@@ -18,13 +18,13 @@ What is proved:
        (`C05Tsc_resync_shift`); hence a later tsc can be converted below an earlier one by at most `drift + ε`
        (`C05Tsc_inversion_bound`), never when the old line is behind (`C05Tsc_no_inversion_when_behind`) or when the two
        statements are further apart than `drift + ε` (`C05Tsc_no_inversion_beyond_drift`);
-       **the bound is attained by the code as it is** (finding F26): `C05Tsc_backstep_witness` — one thread, grace period
+       **the bound is attained by the code as it is** (finding F33): `C05Tsc_backstep_witness` — one thread, grace period
        on, both statements enqueued at once: the sink receives timestamps W+1002100 then W+1001650;
        `C05Tsc_inversion_witness` — two threads: the statement whose log call began later is written first;
  (iii) per-thread order and conservation do not depend on the conversion (`C05Tsc_thread_order_any_conversion`), and the
        pop rule takes a least converted front (`C05Tsc_pop_takes_least_converted`).
 
-NOT claimed (TODO, waits for the coordinator's decision on F26): "the backend writes the statements of TSC loggers in
+NOT claimed (TODO, waits for the coordinator's decision on F33): "the backend writes the statements of TSC loggers in
 non-decreasing timestamp order" across a resync.
 -/
 namespace Tsc
@@ -80,7 +80,7 @@ theorem C05Tsc_no_inversion_beyond_drift {sc : Int → Int} {ε : Int} (hs : Sca
 /-- the exact rational scaling is an instance (non-vacuity of `ScaleOK`, and the reference of the `within 1 ns` check) -/
 theorem C05Tsc_exact_scale_ok (num k : Nat) : ScaleOK (scaleExact num k) 1 := scaleExact_ok num k
 
-/-! ### witnesses: the bound is attained (finding F26) — the scripts of `corpus/C05/tsc_resync_*.e2e.txt` -/
+/-! ### witnesses: the bound is attained (finding F33) — the scripts of `corpus/C05/tsc_resync_*.e2e.txt` -/
 
 /-- `ns_per_tick = 1.0` -/
 def sc1 : Int → Int := scaleExact 1 0
@@ -103,7 +103,7 @@ def wBackstep : List POp :=
 def wInversion : List POp :=
   [.decode 1 1 2002100 wNow [wRead], .decode 2 2 2002150 wNow [wRead], .pop, .pop]
 
-/-- **Finding F26, one thread.** Grace period on, both statements pass the `ts_now` gate, and the sink receives B with
+/-- **Finding F33, one thread.** Grace period on, both statements pass the `ts_now` gate, and the sink receives B with
     W+1002100 and then C with W+1001650: the written timestamps decrease by 450 ns (= drift − 50 ticks). -/
 theorem C05Tsc_backstep_witness :
     ((prun Params.code sc1 { clock := wClock } wBackstep).written.map (fun e => (e.id, e.tsc, e.ts)))
@@ -111,7 +111,7 @@ theorem C05Tsc_backstep_witness :
     drift sc1 ⟨1700000000000002000, 1002000⟩ ⟨1700000000001006500, 2007000⟩ = 500 := by
   decide +kernel
 
-/-- **Finding F26, two threads.** Same clock values; the pop rule takes the least converted front: C (log call started at
+/-- **Finding F33, two threads.** Same clock values; the pop rule takes the least converted front: C (log call started at
     tsc 2002150) is written before B (tsc 2002100). -/
 theorem C05Tsc_inversion_witness :
     ((prun Params.code sc1 { clock := wClock } wInversion).written.map (fun e => (e.id, e.th, e.tsc, e.ts)))
